@@ -460,6 +460,15 @@ class RecipeGen:
                 self.need(5)
                 sc.abis.append(t)
                 return ["newabi", t, v]
+        if x > 1.0 - self.f.get("dup_pub_p", 0.03) and sc.vars:
+            # two arms with identical operations, each storing to and at once loading from the same variable
+            cands = [i for i in range(len(sc.vars)) if i not in sc.for_vars]
+            if cands:
+                i = r.choice(cands)
+                arm = [["pub", i, self.expr(sc, sc.vars[i], 2)]]
+                if r.random() < 0.5:
+                    return ["if", self.expr(sc, "u", 2), arm, arm]
+                return ["cond", [[self.expr(sc, "u", 2), arm], [self.expr(sc, "u", 2), arm]]]
         if x < 0.44 and self.f["dynvar"] and (sc.vars_of("u") or sc.vars_of("b")) and sc.in_sub is None:
             t = r.choice(["u", "b"])
             c = sc.vars_of(t)
@@ -1093,7 +1102,7 @@ def _profile_knobs(profile, feats: dict) -> dict:
         feats.update({"abi": False, "zoo": True, "named_tuples": False, "helpers": False})
         k.update({"low_versions": True, "router_p": 0.0})
     elif profile == "opt-slots":
-        feats.update({"globals": True, "reserved_slots": True, "dynvar": True, "multivalue": True, "cond": True, "max_nest": 2})
+        feats.update({"globals": True, "reserved_slots": True, "dynvar": True, "multivalue": True, "cond": True, "max_nest": 2, "dup_pub_p": 0.25})
         k.update({"ss_on_p": 0.7, "shared_S_p": 0.8, "testctx_p": 0.7})
     elif profile == "identity":
         k.update({"natural_p": 1.0, "ss_on_p": 0.6, "noise_p": 0.6})
